@@ -586,7 +586,7 @@ def correspond(ctx):
     from ekw import c13_fluent as F
     from ekw import c14_fresh as X
     from ekw.core import CORPUS_DIR
-    n = ctx.budget(120, 4000)
+    n = ctx.budget(100, 4000)
     progs = list(_witnesses())
     for f in sorted(glob.glob(str(CORPUS_DIR / "C14_*.json"))):
         progs.append(json.load(open(f))["prog"])
